@@ -46,6 +46,11 @@ type scope struct {
 
 	// State
 	disposed int32 // atomic
+
+	// closeDone is closed when the Close call that won the disposed flag has
+	// finished; closeErr is that call's result (read after closeDone).
+	closeDone chan struct{}
+	closeErr  error
 }
 
 func newScope(rootProvider *provider, parent *scope, ctx context.Context, cancel context.CancelFunc) (*scope, error) {
@@ -70,6 +75,7 @@ func newScopeDeferred(rootProvider *provider, parent *scope, ctx context.Context
 		instances:    make(map[instanceKey]any, 8), // Pre-size for typical usage
 		disposables:  make([]Disposable, 0, 4),
 		children:     make(map[*scope]struct{}, 2),
+		closeDone:    make(chan struct{}),
 	}
 
 	ctx = context.WithValue(ctx, scopeContextKey{}, s)
@@ -236,9 +242,37 @@ func (s *scope) CreateScope(ctx context.Context) (Scope, error) {
 // Close disposes the scope and all its resources
 func (s *scope) Close() error {
 	if !atomic.CompareAndSwapInt32(&s.disposed, 0, 1) {
-		return nil // Already closed
+		// Already closed, or being closed by another goroutine (for example the
+		// context watcher): wait, so that a returned Close always means closed
+		<-s.closeDone
+		return nil
 	}
 
+	err := s.dispose()
+	s.closeErr = err
+	close(s.closeDone)
+	return err
+}
+
+// closeFromOwner is Close as called by the owning parent scope or provider.
+// If the scope is already being closed by someone else (its context watcher
+// reacts to the owner's cancellation), it waits for that close and reports its
+// result, so that the owner disposes its own instances only after the whole
+// subtree is disposed and its error covers the whole subtree.
+func (s *scope) closeFromOwner() error {
+	if !atomic.CompareAndSwapInt32(&s.disposed, 0, 1) {
+		<-s.closeDone
+		return s.closeErr
+	}
+
+	err := s.dispose()
+	s.closeErr = err
+	close(s.closeDone)
+	return err
+}
+
+// dispose releases everything the scope owns. The caller has won the disposed flag.
+func (s *scope) dispose() error {
 	var errs []error
 
 	// Cancel context
@@ -256,7 +290,7 @@ func (s *scope) Close() error {
 	s.childrenMu.Unlock()
 
 	for _, child := range children {
-		if err := child.Close(); err != nil {
+		if err := child.closeFromOwner(); err != nil {
 			errs = append(errs, fmt.Errorf("failed to close child scope: %w", err))
 		}
 	}
